@@ -13,8 +13,9 @@ from xknx.io.data_connection import ConnectionHeartbeat
 
 PROPERTY = "C26"
 RULE = ("outcome scripts over {ok, fail(no response), fail(status), none, raise} fed to the real ConnectionHeartbeat on the "
-        "virtual-time loop with the request stubbed (request durations 0 / 50 ms / CONNECTIONSTATE_REQUEST_TIMEOUT); both "
-        "tiers: all 4^1+..+4^8 = 87 380 scripts over {ok, fail, none, raise} (the two kinds of fail alternate by position) "
+        "virtual-time loop with the request stubbed (request durations 0 / 50 ms / CONNECTIONSTATE_REQUEST_TIMEOUT); all "
+        "4^1+..+4^8 = 87 380 scripts over {ok, fail, none, raise} in thorough, in quick all up to length 7 and those of "
+        "length 8 whose unconsumed tail is at most two outcomes (the two kinds of fail alternate by position) "
         "+ random scripts up to length 12 with all duration modes and owner-callback variants (stop from inside, slow, "
         "restart); the same heartbeat inside a real UDPTunnel and UDPDeviceManagementConnection (real ConnectionState "
         "exchange over the stub socket, gateway scripted ok / silent / error status / channel gone) for all live scripts "
@@ -383,6 +384,8 @@ def generate(rng, tier):
         for seq in itertools.product(SYMS, repeat=length):
             t = _terminal_at(seq)
             pruned = t is not None and t < length - 2
+            if pruned and length == 8 and not thorough:
+                continue   # quick: length 8 only up to an unconsumed tail of two outcomes (thorough runs all 4^8)
             n += 1
             yield {"script": ",".join(_status_variant(seq, n)),
                    "dur": "zero" if pruned else ("zero", "fast", "real")[n % 3],
